@@ -161,7 +161,8 @@ def oracle (impl : List String) : String :=
   let cls := impl.getD 1 ""
   if cls == "panic" then "FAIL the parser panicked"
   else if cls == "abort" then "FAIL the process aborted (allocation failure / stack overflow)"
-  else if cls == "timeout" then "FAIL the parser did not return within 20 s (non-termination)"
+  else if cls == "timeout" then "FAIL the parser did not return within 10 s (non-termination)"
+  else if cls == "not-run" then "ok skip not run (earlier cases of this run did not terminate)"
   else if cls != "ok" && cls != "err" then s!"FAIL unexpected outcome {cls}"
   else if (impl.getD 2 "").startsWith "req=BIG" then
     s!"FAIL single allocation request {impl.getD 2 ""} exceeds 256*len+64KiB"
